@@ -39,13 +39,18 @@ def solve_one(job):
     t0 = time.time()
     res = {'name': name, 'backend': 'z3-%s' % z3.get_version_string(), 'verdict': 'unknown', 'model': None, 'reason': ''}
     # small portfolio: E-matching is sensitive to relevancy filtering (see DESIGN 3.4); stop at the first definite answer
-    configs = [{'smt.relevancy': 0}, {}, {'smt.relevancy': 0, 'smt.random_seed': 11}]
-    per = max(1000, int(timeout_ms * 0.6))
+    quantified = '(forall' in smt2 or '(exists' in smt2
+    if quantified:
+        configs = [{'smt.relevancy': 0}, {}, {'smt.relevancy': 0, 'smt.random_seed': 11}]
+        budget = [0.6, 0.2, 0.2]
+    else:
+        configs = [{}]
+        budget = [1.0]
     for ci, cfg in enumerate(configs):
         try:
             ctx = z3.Context()
             s = z3.Solver(ctx=ctx)
-            s.set('timeout', int(per if ci == 0 else max(1000, timeout_ms * 0.2)))
+            s.set('timeout', int(max(1000, timeout_ms * budget[ci])))
             s.set('auto_config', False)
             s.set('smt.mbqi', False)
             for k, v in cfg.items():
